@@ -201,7 +201,7 @@ theorem newDT_fresh : ∀ (dt : DataType) (path : String) (nullable : Bool) (md 
     cases h
     obtain ⟨hw, hd, ht⟩ := newDT_fresh k _ _ _ kb h1
     obtain ⟨hw2, hd2, ht2⟩ := newDT_fresh v _ _ _ vb h2
-    exact ⟨by simp only [WFB, hd, hd2]; exact ⟨hw, hw2, List.nodup_nil, rfl, by simp, fun _ => by simp [hd2]⟩, by simp [dec, hd],
+    exact ⟨by simp only [WFB, hd, hd2]; exact ⟨hw, hw2, List.nodup_nil, rfl, by simp, ⟨fun _ => by simp [hd2], fun _ => rfl⟩⟩, by simp [dec, hd],
       by simp [takeRest, ht, ht2]⟩
   | .union _ .sparse, path, nullable, md, b, h => by simp [newDT, ctx_ok, fail] at h
   | .union fs .dense, path, nullable, md, b, h => by
